@@ -31,7 +31,7 @@ func init() {
 		Level: "exploration",
 		Rule: "E1 bounded-exhaustive enumeration of the kind grammar T ::= scalar | string | [k]T | []T | map[K]T | *T | interface{} | struct{T,…} built with reflect to depth 3 (thorough 4) (every depth-1 type, then W types spread over each level as elements of the next): all 17 scalar kinds (bool, int8..64, int, uint8..64, uint, uintptr, float32/64, complex64/128) at every leaf position of depth-1 composites, a 7-type leaf subset plus 9 types of the previous level for binary structs; arrays of 0 and 2 elements; struct arity 1 and 2; map keys string/int32/uint; " +
 			"values per type from a shape alphabet (slices nil/empty/1/2 elements, maps nil/empty/1/2 entries, pointers nil/non-nil, interfaces nil/scalar/string/pointer/struct, strings \"\",\"a\",\"abc\" and 40 bytes; over leaf types also slices of 9, 70 and 1025 elements and maps of 9, 40 and 1000 entries; pointer values are deliberately REUSED in both elements of arrays and both fields of structs, so shared acyclic pointers occur). Oracle: the generator returns (value, size) and computes the size while building (headers 16/24/8/8/16, 8 for int/uint/uintptr; 64-bit platform asserted). size.Of on every value; Stat(v,d,m) for d in {0,1,3}, m in {0,1,10} and the AvgOf form: the number on the first line equals the expected size. " +
-			"Plus 18 hand-written values (among them maps whose struct / array / interface keys differ in structural size) of Go types reflect cannot build (unexported and embedded fields, named types, padding, interior pointers of another type into the object being walked - to its first field or element and further in), and a SEQUENCE of 13 values of distinct types that print alike (seven local types all called props.rec, two package-level types both called model.Rec; in pairs also equal in Size and Kind), measured in order by one goroutine, forward then backward: nothing may be carried from one type to a like-named one. A case is one (value, function) pair; non-trivial when the type is composite.",
+			"Plus 34 hand-written values (16 of them deep: linked lists of 999..50001 nodes and interface/pointer chains of 1000..10000 boxes) (among them maps whose struct / array / interface keys differ in structural size) of Go types reflect cannot build (unexported and embedded fields, named types, padding, interior pointers of another type into the object being walked - to its first field or element and further in), and a SEQUENCE of 13 values of distinct types that print alike (seven local types all called props.rec, two package-level types both called model.Rec; in pairs also equal in Size and Kind), measured in order by one goroutine, forward then backward: nothing may be carried from one type to a like-named one. A case is one (value, function) pair; non-trivial when the type is composite.",
 		Assumptions: []string{
 			"64-bit platform (asserted at start)",
 			"types deeper than D, struct arity > 2 and cyclic values are not generated (cycles are excluded by the statement)",
@@ -296,6 +296,25 @@ func c20Handwritten() c20Type {
 		8+(16+(16+3)+1)+(16+1+1)+(16+(16+1)+(16+2)+1), "map[interface{}]int8 with a string, an int8 and a [2]string key")
 	add(map[c20HostPort][]string{{"k", 1}: {"v", "ww"}, {"kkkkkkkk", 2}: nil},
 		8+((16+1)+4+(24+(16+1)+(16+2)))+((16+8)+4+24), "map[struct{Host string; Port int32}][]string")
+	// deep values: linked lists (2 recursion levels per node) and interface/pointer chains (3 per box) of
+	// threshold lengths: a recursion that gives up at some depth (as encoding/json does at 10000) counts a
+	// deep pointer like a nil one
+	for _, n := range []int{999, 1000, 1001, 4999, 5000, 5001, 5002, 9999, 10001, 20000, 50001} {
+		var head *c20ListNode
+		for i := 0; i < n; i++ {
+			head = &c20ListNode{next: head, val: int64(i)}
+		}
+		add(head, n*(8+8)+8, fmt.Sprintf("linked list of %d nodes struct{next *node; val int64}", n))
+	}
+	for _, n := range []int{1000, 3333, 3334, 3400, 10000} {
+		var x interface{} = int8(1)
+		for i := 0; i < n; i++ {
+			x = &[1]interface{}{x}
+		}
+		// the argument itself is the outermost pointer; each box is a pointer (8) to an array of one
+		// interface (16 + its dynamic value); the innermost dynamic value is an int8
+		add(x, n*(8+16)+1, fmt.Sprintf("chain of %d boxes *[1]interface{} -> *[1]interface{} -> ... -> int8", n))
+	}
 	// interior pointers: acyclic values in which a pointer of ANOTHER type points into the very
 	// object being walked - to its first field or element (same address as the object), or further in
 	cur := &c20Cursor{val: 5}
@@ -321,6 +340,11 @@ func c20Handwritten() c20Type {
 type c20HostPort struct {
 	Host string
 	Port int32
+}
+
+type c20ListNode struct {
+	next *c20ListNode
+	val  int64
 }
 
 type c20Cursor struct {
